@@ -9,6 +9,8 @@ import (
 	"io"
 	"math"
 	"net/url"
+	"os"
+	"path/filepath"
 	"reflect"
 	"strconv"
 	"sync"
@@ -49,12 +51,32 @@ func (d *updogDriver) Open(name string) (driver.Conn, error) {
 		if filepath == "" {
 			filepath = u.Path
 		}
+		filepath = canonicalPath(filepath)
 		return d.openFile(filepath, u.Query())
 	case "grpc":
 		return d.openConn(u.Hostname(), u.Port())
 	default:
 		return nil, fmt.Errorf("unsupported connection type %q", u.Scheme)
 	}
+}
+
+// canonicalPath returns the name under which an index file is registered in the connection
+// cache. The same file reached through another spelling of its path ("./x", "dir/../x", a
+// relative path, a symbolic link) must find the connection that is already open: opening the
+// file a second time would block forever on the file lock.
+func canonicalPath(name string) string {
+	if !filepath.IsAbs(name) {
+		wd, err := os.Getwd()
+		if err != nil {
+			return name
+		}
+		// not filepath.Join: it resolves ".." lexically, which is wrong behind a symbolic link.
+		name = wd + string(filepath.Separator) + name
+	}
+	if resolved, err := filepath.EvalSymlinks(name); err == nil {
+		return resolved
+	}
+	return name
 }
 
 type fileCacheKey struct {
